@@ -66,6 +66,12 @@ RULE = ('negotiation: Accept headers rendered from a generated AST of 1..5 media
         'plus a junk stream of arbitrary header strings (15% of the structured junk with 0..40 members); '
         'handlers: histories of 1..10 operations (set/delete/update/pop/popitem/clear/copy/|=/setdefault/LRU floods/resolve, a fifth via Request.get_media/Response.render_body) over media-type keys with wildcards and parameters, '
         'exhaustive over a 21-operation alphabet on a 3-type universe (x 3 initial mappings) up to length 3 (quick) / 4 (thorough); '
+        'FAILING OPERATIONS: 30 % of the random histories (and two letters of the exhaustive alphabet) contain operations that RAISE, possibly after a partial effect: update(source) / update(source, **kwargs) / '
+        '`|= source` where the source is a list / iterator / tuple of pairs with a malformed element (1-tuple, 3-tuple, non-sequence, None, unhashable key, 3-character string) after the first 0..4 pairs, a generator that '
+        'raises midway, an object with keys() whose n-th value lookup raises, a collections.abc.Mapping that does the same (the failure biased towards the end of the source; one in six sources does not fail: the same '
+        'shapes plus UserDict / another Handlers / dict on the normal exit), and calls that fail outright (pop without default / [] on a missing key, update(None), update(42), two positional arguments, unhashable keys in '
+        'setdefault / [] = / del, pop(), popitem(1), |= None, |= 5, |= with a malformed first pair); the reference for the mapping is the same call on a plain dict holding the same objects, the later resolutions are judged '
+        'against the items the real mapping holds AFTER the failure, and the model gets the items that were actually stored followed by the invalidation the code performs on that exit (driver lines fupdate / fior); '
         'CONSTRUCTION: every history that does not start from Handlers() builds its first object from a CALLER-OWNED mapping (dict, OrderedDict, dict subclass, defaultdict, UserDict, mappingproxy, ChainMap) which the history keeps: '
         'operations fromarg (another Handlers from the same argument, as it is now), fromobj (Handlers(another Handlers)), argset / argdel / argpop / argclear / argupdate (the caller changes its mapping afterwards), switch; '
         'a third of those random histories is construction-heavy; after every operation every object must hold what the same operations on its own plain dict give, the argument what the caller left in it, '
@@ -868,6 +874,108 @@ def _handlers(ctx):
         raise ValueError(kind)
     ARG_KINDS = ['dict', 'dict', 'dict', 'OrderedDict', 'dict_subclass', 'defaultdict', 'UserDict', 'mappingproxy', 'ChainMap']
 
+
+    # ---- operations that RAISE, possibly after a partial effect: the sources handed to update() / |= and calls that fail outright
+    import operator
+    import collections.abc as cabc
+    SRC_EXC = {'RuntimeError': RuntimeError, 'KeyError': KeyError, 'ValueError': ValueError, 'LookupError': LookupError, 'OSError': OSError}
+
+    class MapLike:
+        """keys() + __getitem__ (not a Mapping): the n-th value lookup raises"""
+        def __init__(s, items, p, exc):
+            s.items, s.p, s.exc, s.n = list(items), p, exc, 0
+            if p is not None and p >= len(s.items):
+                s.items.append(('x/extra', None))
+        def keys(s):
+            return [k_ for k_, _ in s.items]
+        def __getitem__(s, k_):
+            n = s.n; s.n += 1
+            if s.p is not None and n >= s.p:
+                raise s.exc('value lookup fails')
+            return s.items[n][1]
+
+    class FailMapping(cabc.Mapping):
+        """a real collections.abc.Mapping whose n-th value lookup raises"""
+        def __init__(s, items, p, exc):
+            s.m = MapLike(items, p, exc)
+        def __iter__(s):
+            return iter(s.m.keys())
+        def __len__(s):
+            return len(s.m.items)
+        def __getitem__(s, k_):
+            return s.m[k_]
+
+    def bad_element(bad, x):
+        return {'short': ('text/plain',), 'long': ('text/plain', x, x), 'nonseq': 5, 'none': None, 'unhashable': ([], x), 'str3': 'abc'}[bad]
+    BAD_ELEMENTS = ['short', 'long', 'nonseq', 'none', 'unhashable', 'str3']
+
+    def make_source(srckind, items, p, bad, x):
+        """the argument of update() / the right operand of |=: `items` in this order; p = None: nothing fails; otherwise the failure comes after
+        the first p items (p = len(items): after all of them)"""
+        items = list(items)
+        if srckind in ('pairs', 'iterpairs', 'tuple_pairs'):
+            seq = [tuple(it) for it in items] if srckind != 'tuple_pairs' else [list(it) for it in items]
+            if p is not None:
+                seq.insert(p, bad_element(bad, x))
+            return seq if srckind == 'pairs' else iter(seq) if srckind == 'iterpairs' else tuple(seq)
+        if srckind == 'gen':
+            def g():
+                for j, it in enumerate(items):
+                    if p is not None and j == p:
+                        raise SRC_EXC[bad]('the source fails')
+                    yield it
+                if p is not None and p >= len(items):
+                    raise SRC_EXC[bad]('the source fails')
+            return g()
+        if srckind == 'maplike':
+            return MapLike(items, p, SRC_EXC[bad])
+        if srckind == 'mapping':
+            return FailMapping(items, p, SRC_EXC[bad])
+        if srckind == 'userdict':
+            return collections.UserDict(items)
+        if srckind == 'handlers':
+            return Handlers(dict(items))
+        if srckind == 'dict':
+            return dict(items)
+        raise ValueError(srckind)
+    SRC_FAILING = ['pairs', 'pairs', 'iterpairs', 'tuple_pairs', 'gen', 'gen', 'maplike', 'mapping']
+    SRC_PLAIN = ['pairs', 'iterpairs', 'tuple_pairs', 'gen', 'maplike', 'mapping', 'userdict', 'handlers', 'dict']
+
+    FAILCALLS = {
+        'pop_nodefault': lambda t, k_, x: t.pop(k_),                 # KeyError when the key is missing (removes it otherwise)
+        'getitem': lambda t, k_, x: t[k_],
+        'update_none': lambda t, k_, x: t.update(None),
+        'update_int': lambda t, k_, x: t.update(42),
+        'update_two_positional': lambda t, k_, x: t.update({k_: x}, {k_: x}),
+        'update_kwargs_only': lambda t, k_, x: t.update(**{k_: x}),  # succeeds
+        'setdefault_unhashable': lambda t, k_, x: t.setdefault([], x),
+        'set_unhashable': lambda t, k_, x: t.__setitem__([], x),
+        'del_unhashable': lambda t, k_, x: t.__delitem__([]),
+        'pop_noargs': lambda t, k_, x: t.pop(),
+        'popitem_arg': lambda t, k_, x: t.popitem(1),
+        'ior_none': lambda t, k_, x: operator.ior(t, None),
+        'ior_int': lambda t, k_, x: operator.ior(t, 5),
+        'ior_bad_first': lambda t, k_, x: operator.ior(t, [(k_,), (k_, x)]),
+    }
+
+    def gen_fail(rnd_):
+        """a random operation of the failing family (about one in six does not fail: the same source shapes on the normal exit)"""
+        r = rnd_.random()
+        if r < 0.2:
+            return ('failcall', rnd_.choice(sorted(FAILCALLS)), rnd_.choice(KSTR))
+        entry = rnd_.choice(['update', 'update', 'ior', 'update_kw'])
+        keys = tuple(rnd_.choice(KSTR) for _ in range(rnd_.randint(0, 4))) if rnd_.random() < 0.3 else tuple(rnd_.sample(KSTR, rnd_.randint(0, 4)))
+        kwkeys = tuple(rnd_.sample(KSTR, rnd_.randint(1, 2))) if entry == 'update_kw' else ()
+        if rnd_.random() < 0.17:
+            return ('fail', entry.replace('_kw', ''), rnd_.choice(SRC_PLAIN), keys, None, None, kwkeys)
+        srckind = rnd_.choice(SRC_FAILING)
+        p = rnd_.randint(0, len(keys))
+        if keys and rnd_.random() < 0.5:
+            p = rnd_.choice([len(keys), len(keys) - 1, max(1, len(keys) - 1)])      # most of the source is stored before the failure
+        bad = rnd_.choice(BAD_ELEMENTS) if srckind in ('pairs', 'iterpairs', 'tuple_pairs') else rnd_.choice(sorted(SRC_EXC))
+        return ('fail', entry.replace('_kw', ''), srckind, keys, p, bad, kwkeys)
+
+
     def run_history(init, ops, finals, meta, exhaustive=False, arg_kind='dict'):
         """init: None (Handlers()) or list of keys (the first object is built from a caller-owned mapping of kind `arg_kind` holding them);
         ops: list of tuples; finals: content types resolved at the end (on every object)."""
@@ -907,6 +1015,7 @@ def _handlers(ctx):
         cur = 0
         why = None if ok0 else 'Handlers() does not hold the documented defaults'
         mutated_between = False; resolved_before = False; nontriv = False
+        failed_any = False
 
         def newh():
             x = H(next(ids)); hid[id(x)] = (x.hid, x); reg[x.hid] = x; return x
@@ -1077,6 +1186,73 @@ def _handlers(ctx):
                     else:
                         d2 = {k_: newh() for k_ in op[1]}
                         ARGD.update(d2); arg_shadow.update({k_: v_.hid for k_, v_ in d2.items()})
+                elif name in ('fail', 'failcall'):
+                    # an operation that (usually) RAISES, possibly after a partial effect. The reference is the same call on a plain dict holding the
+                    # same objects; the oracle of the later resolutions is the mapping AS IT IS after the call (observed), whatever the failure left
+                    x = newh()
+                    if name == 'fail':
+                        _, entry, srckind, keys_, p_, bad_, kwkeys = op
+                        vals = [newh() for _ in keys_]
+                        kwvals = {k_: newh() for k_ in kwkeys}
+                        def apply(t):
+                            src = make_source(srckind, zip(keys_, vals), p_, bad_, x)
+                            if entry == 'ior':
+                                t |= src
+                                return t
+                            t.update(src, **kwvals)
+                            return t
+                        ctx.count(f'failing_op_{entry}_{srckind}' + ('_kwargs' if kwkeys else '') + ('_normal_exit' if p_ is None else ''))
+                        if p_ is not None:
+                            ctx.count('failing_op_stored_before_failure_' + ('0' if p_ == 0 else '1' if p_ == 1 else '2+'))
+                    else:
+                        entry = op[1]
+                        def apply(t):
+                            r_ = FAILCALLS[op[1]](t, op[2], x)
+                            return r_ if op[1].startswith('ior') else t
+                        ctx.count('failing_call_' + op[1])
+                    ref = {k_: reg[v_] for k_, v_ in shadow.items()}
+                    before = dict(shadow)
+                    ref_exc = exc = None
+                    try:
+                        with alarm(3):
+                            ref = apply(ref)
+                    except Hang:
+                        raise
+                    except Exception as e:  # noqa
+                        ref_exc = type(e).__name__
+                    try:
+                        with alarm(3):
+                            h2 = apply(h)
+                        if h2 is not h:
+                            why = why or f'{entry} rebound the name to another object'
+                    except Hang:
+                        raise
+                    except Exception as e:  # noqa
+                        exc = type(e).__name__
+                    observed = [(k_, ident(v_)) for k_, v_ in h.items()]
+                    expected = [(k_, ident(v_)) for k_, v_ in ref.items()]
+                    if (exc is None) != (ref_exc is None):
+                        why = why or f'{name} {op[1:]!r}: raised {exc}, the same call on a plain dict raised {ref_exc}'
+                    if observed != expected:
+                        why = why or f'after the {"failed " if exc else ""}{name} {op[1:]!r} the object holds {observed}, the same call on a plain dict leaves {expected}'
+                    shadow.clear(); shadow.update(observed)
+                    stored = [(k_, v_) for k_, v_ in observed if before.get(k_) != v_]
+                    removed = [k_ for k_ in before if k_ not in shadow]
+                    if exc is not None:
+                        failed_any = True
+                        ctx.count('failed_op_' + ('left_a_partial_effect' if stored or removed else 'left_the_mapping_unchanged'))
+                    kv_ = ','.join(f'{hexs(k_)}:{v_}' for k_, v_ in stored) or '-'
+                    if removed and not stored and len(removed) == 1:
+                        sess.op(f'pop {cur} {hexs(removed[0])}', 'ok ' + mapping(cur))
+                    elif removed:
+                        sess.op(f'clear {cur}', 'ok -')
+                        sess.op(f'update {cur} ' + (','.join(f'{hexs(k_)}:{v_}' for k_, v_ in observed) or '-'), 'ok ' + mapping(cur))
+                    elif exc is not None:
+                        # the items that were actually stored, then the invalidation the code performs on this exit: update() stores through
+                        # __setitem__ (one invalidation per stored item); `|=` stores into the dict and invalidates in its finally clause
+                        sess.op(f"{'fior' if entry.startswith('ior') else 'fupdate'} {cur} {kv_}", 'raised ' + mapping(cur))
+                    else:
+                        sess.op(f"{'ior' if entry.startswith('ior') else 'update'} {cur} {kv_}", 'ok ' + mapping(cur))
                 elif name == 'switch':
                     cur = op[1] % len(objs)
                     continue
@@ -1107,6 +1283,8 @@ def _handlers(ctx):
             for i in range(len(objs)):
                 for ct in finals:
                     resolve(i, ct, 'application/json', None, 'direct')
+        if failed_any:
+            ctx.count('history_with_a_failed_operation')
         ctx.oracle(O_H, why is None, why, {'initial': 'Handlers()' if init is None else f'Handlers(<{arg_kind} with the keys {list(init)}>)',
                                            'ops': [list(map(_plain, o)) for o in ops], 'final_resolutions (on every object)': list(finals)})
         ctx.seen(('h', str(init), str(ops)), nontriv)
@@ -1119,6 +1297,7 @@ def _handlers(ctx):
     ALPHA = ([('set', k) for k in U] + [('del', k) for k in U] + [('ior', (k,)) for k in U] +
              [('pop', 'text/plain'), ('setdefault', 'text/plain'), ('update', ('text/plain', 'application/json')), ('clear',), ('copy', True), ('popitem',)] +
              [('fromarg', True), ('argset', 'text/plain')] +
+             [('fail', 'update', 'pairs', ('text/plain', 'application/json'), 1, 'short', ()), ('fail', 'ior', 'gen', ('text/plain', 'application/json'), 1, 'RuntimeError', ())] +
              [('resolve', ct, 'application/json', None, 'direct') for ct in ('application/json', 'text/plain', 'text/html', None)])
     maxlen = 3 if ctx.quick else 4
     allh = []
@@ -1140,6 +1319,7 @@ def _handlers(ctx):
         # from each other, the caller changing its mapping afterwards, the history moving between the objects
         constr = init is not None and rnd.random() < 0.33
         arg_kind = rnd.choice(ARG_KINDS)
+        failing = rnd.random() < 0.3       # histories with operations that raise (after a partial effect) among the others
         ops = []
         for _ in range(rnd.randint(1, 10)):
             r = rnd.random()
@@ -1161,6 +1341,9 @@ def _handlers(ctx):
                     ops.append(('argupdate', tuple(rnd.sample(KSTR, rnd.randint(0, 3)))))
                 else:
                     ops.append(('switch', rnd.randint(0, 3)))
+                continue
+            if failing and r > 0.62:
+                ops.append(gen_fail(rnd))
                 continue
             if r < 0.36:
                 ct = rnd.choice(CSTR + KSTR + [None, '*/*'])
